@@ -47,8 +47,11 @@ def handleSession (op : String) (j : Json) : Option (Except String Json) :=
     let r2 := Session.run (env hs false) pool ops
     let n1 := Session.run (envO (oracleShift (-nearD)) hs true) pool ops
     let n2 := Session.run (envO (oracleShift nearD) hs false) pool ops
+    let n3 := Session.run (envO oracleBox hs true) pool ops
+    let n4 := Session.run (envO oracleBox hs false) pool ops
     pure (Json.mkObj [("outs", Json.arr (r1.2.map jOut).toArray), ("alt", Json.arr (r2.2.map jOut).toArray),
-                      ("near", Json.arr #[Json.arr (n1.2.map jOut).toArray, Json.arr (n2.2.map jOut).toArray])])
+                      ("near", Json.arr #[Json.arr (n1.2.map jOut).toArray, Json.arr (n2.2.map jOut).toArray,
+                                          Json.arr (n3.2.map jOut).toArray, Json.arr (n4.2.map jOut).toArray])])
   | _ => none
 
 end OpsSession
